@@ -3,6 +3,7 @@
 package engine
 
 import (
+	"strings"
 	"fmt"
 	"math"
 
@@ -109,15 +110,24 @@ func verifH_C14_errors() {
 			return
 		}
 	case 2:
+		// a table that does not exist under the name used: an unrelated name, a
+		// longer name, or the name of an existing table in another case (table
+		// names are case-sensitive today; should another spelling ever be
+		// accepted, the statement is outside this clause)
+		name := []string{"nosuch", t.name + t.name, strings.ToUpper(t.name)}[verifChoice("name", 3)]
 		switch verifChoice("which", 3) {
 		case 0:
-			_, err = EvaluateInsert(verifInsertStmt("nosuch", nil, [][]interface{}{verifSymRow("r", 1)}), rs)
+			_, err = EvaluateInsert(verifInsertStmt(name, nil, [][]interface{}{verifSymRow("r", 1)}), rs)
 		case 1:
-			err = EvaluateUpdate(sql.UpdateStatementSearched{TableName: "nosuch", Set: []sql.SetClause{{ObjectColumn: "b", UpdateSource: verifI64("nb")}}}, rs)
+			err = EvaluateUpdate(sql.UpdateStatementSearched{TableName: name, Set: []sql.SetClause{{ObjectColumn: "b", UpdateSource: verifI64("nb")}}}, rs)
 		default:
-			_, err = EvaluateDelete(sql.DeleteStatementSearched{TableName: "nosuch"}, rs)
+			_, err = EvaluateDelete(sql.DeleteStatementSearched{TableName: name}, rs)
 		}
 		verifTag("stmt", "unknown-table")
+		if err == nil && name == strings.ToUpper(t.name) {
+			verifReach("other-spelling-accepted")
+			return
+		}
 	case 3:
 		err = EvaluateCreateTable(verifCreateStmt(t.name, verifStdCols[:2]), rs)
 		verifTag("stmt", "duplicate-create")
